@@ -83,6 +83,10 @@ def postInitOfCycleMember (G : α → List α) (U : List α) (events : List (Eve
     | .postInit m => onCycle G U m
     | _ => false
 
+/-- in the chronological log `events`, `a` occurs (strictly) before an occurrence of `b` -/
+def Before (events : List (Event α)) (a b : Event α) : Prop :=
+  ∃ l1 l2, events = l1 ++ b :: l2 ∧ a ∈ l1
+
 /-- what C20 demands of one observed run -/
 def judge (G : α → List α) (ok : α → Bool) (U L : List α) (status : Nat) (events : List (Event α)) : Bool :=
   if mustAbort G ok U L then
